@@ -387,6 +387,23 @@ impl EncryptedKeyStorageManager {
         Ok(())
     }
 
+    /// Key of the in-memory seed cache. It is bound to the password that opened the
+    /// store, so a caller presenting any other password misses the cache and has to
+    /// get past the encrypted file like everybody else.
+    fn cache_key(seed_id: &str, password: &SecureString) -> Result<String> {
+        let password_str = password.as_str().map_err(|e| {
+            P2PError::Security(crate::error::SecurityError::DecryptionFailed(
+                format!("Invalid password encoding: {e}").into(),
+            ))
+        })?;
+        let mut hasher = blake3::Hasher::new();
+        hasher.update(b"saorsa-key-cache");
+        hasher.update(&(seed_id.len() as u64).to_le_bytes());
+        hasher.update(seed_id.as_bytes());
+        hasher.update(password_str.as_bytes());
+        Ok(hasher.finalize().to_hex().to_string())
+    }
+
     /// Store a master seed
     pub async fn store_master_seed(
         &self,
@@ -432,7 +449,7 @@ impl EncryptedKeyStorageManager {
                 ))
             })?;
             cache.insert(
-                seed_id.to_string(),
+                Self::cache_key(seed_id, password)?,
                 SecureMemory::from_slice(master_seed.seed_material())?,
             );
         }
@@ -460,14 +477,15 @@ impl EncryptedKeyStorageManager {
     ) -> Result<MasterSeed> {
         let start_time = Instant::now();
 
-        // Check cache first
+        // Check cache first (entries are bound to the password that opened the store)
+        let cache_key = Self::cache_key(seed_id, password)?;
         {
             let cache = self.key_cache.read().map_err(|_| {
                 P2PError::Storage(StorageError::LockPoisoned(
                     "read lock failed".to_string().into(),
                 ))
             })?;
-            if let Some(cached_seed) = cache.get(seed_id) {
+            if let Some(cached_seed) = cache.get(&cache_key) {
                 let mut stats = self.stats.lock().map_err(|_| {
                     P2PError::Storage(StorageError::LockPoisoned(
                         "mutex lock failed".to_string().into(),
@@ -496,7 +514,7 @@ impl EncryptedKeyStorageManager {
                     "write lock failed".to_string().into(),
                 ))
             })?;
-            cache.insert(seed_id.to_string(), SecureMemory::from_slice(seed_bytes)?);
+            cache.insert(cache_key, SecureMemory::from_slice(seed_bytes)?);
         }
 
         // Update statistics
